@@ -63,6 +63,7 @@ type FnCtx struct {
 	ghostDefs     map[string]bool
 	nq            int
 	named         map[string]string
+	structAssumed map[string]bool
 	replay        []*replayParam
 	freshObj      map[string]bool // refs allocated in this function (not yet shared: no lock needed)
 	loopHead      map[*ssa.BasicBlock]*State
@@ -322,6 +323,9 @@ func (fc *FnCtx) load(st *State, a *Addr) Val {
 		if owner != nil && owner.Obj().Pkg() != nil {
 			v.Orig = owner.Obj().Pkg().Path() + "." + owner.Obj().Name() + "." + fname
 		}
+	}
+	if v.K == KAddr && len(fc.eng.structInvs) > 0 && fc.quiet == 0 {
+		fc.assumeStructInv(st, v)
 	}
 	if a.Kind == AGlobal && len(a.Path) == 0 && v.K == KAddr && v.A.Kind == AObj && fc.eng.initAlloc[a.Global] && !fc.eng.mutableGlobal[a.Global] {
 		fc.assumption("A-INIT: package-level pointers initialised to a composite literal and never reassigned are non-nil")
@@ -944,6 +948,17 @@ func (fc *FnCtx) havocAllBut(st *State, prefixes []string) {
 	}
 	sort.Strings(kp)
 	kp = append(kp, prefixes...)
+	// constructor-only fields (structinv: checked to be written by their constructors only) survive any havoc
+	for _, si := range fc.eng.structInvs {
+		var fs []string
+		for f := range si.fields {
+			fs = append(fs, f)
+		}
+		sort.Strings(fs)
+		for _, f := range fs {
+			kp = append(kp, "H$"+typeName(si.rootType)+"$"+f)
+		}
+	}
 	for _, n := range sortedKeys(st.heap) {
 		for _, p := range kp {
 			if strings.HasPrefix(n, p) {
